@@ -426,14 +426,16 @@ Proof.
     split; [right; eexists; reflexivity|]. unfold IP.tok_vals. cbn [fst snd]. rewrite tok_plain_not_global.
     split; [cbn [IP.cv_val]; rewrite IP.pmask_0; reflexivity|].
     pose proof (v4_lt_top b Hb). constructor; [|constructor].
-    cbn [IP.cv_ok]. rewrite N.pow_0_r, !N.mod_1_r. unfold v4 in *. repeat split; try lia.
+    cbn [IP.cv_ok]. rewrite N.pow_0_r, !N.mod_1_r. split; [lia|]. split; [unfold v4; lia|]. split; [assumption|].
+    split; [reflexivity|]. split; [reflexivity|]. unfold v4. intros E. lia.
   - destruct H as (Hab & Hb & Hn & Hala & Halb). assert (Ha : a < W32) by lia.
     destruct (cidr_val a n Ha Hn Hala) as [Em Eva]. destruct (cidr_val b n Hb Hn Halb) as [_ Evb]. rewrite Em, Eva, Evb.
     split; [right; eexists; reflexivity|]. unfold IP.tok_vals. cbn [fst snd]. rewrite tok_plain_not_global.
     split; [reflexivity|].
     constructor; [|constructor].
-    cbn [IP.cv_ok]. pose proof (v4_lt_top b Hb). pose proof (v4_aligned a (32 - n) ltac:(lia) Hala).
-    pose proof (v4_aligned b (32 - n) ltac:(lia) Halb). unfold v4 in *. repeat split; try lia.
+    cbn [IP.cv_ok]. split; [lia|]. split; [unfold v4; lia|]. split; [exact (v4_lt_top b Hb)|].
+    split; [exact (v4_aligned a (32 - n) ltac:(lia) Hala)|]. split; [exact (v4_aligned b (32 - n) ltac:(lia) Halb)|].
+    unfold v4. intros E. lia.
 Qed.
 
 Lemma ip_in_cv x t : iptok_ok t ->
@@ -578,9 +580,29 @@ Proof.
   - intros (tok & Ht & Hm). exists (meth_parse_cfg tok). split; [apply in_map, Ht| exact Hm].
 Qed.
 
-(* a method value that means what it says: reading it the way request lines are read gives the same method
-   (false exactly for proper prefixes of registered names, e.g. "GE" or "p") *)
+(* a method value means what it says: reading it the way request lines are read gives the same method.
+   (Before /repo ae7c270 this failed for proper prefixes of registered names: "GE" was GET, "p" was POST.) *)
 Definition meth_tok_exact (tok : bytes) : Prop := meth_parse_cfg tok = meth_parse_req tok.
+
+Lemma takeN_all {A} (l : list A) : takeN (lenN l) l = l.
+Proof.
+  induction l as [|x l IH]; cbn [lenN takeN]; [reflexivity|].
+  destruct (N.eqb_spec (N.succ (lenN l)) 0) as [E|E]; [lia|]. rewrite N.pred_succ, IH. reflexivity.
+Qed.
+
+Lemma cfg_req_image_eq image tok : cfg_image_eq image tok = req_image_eq image tok.
+Proof.
+  unfold cfg_image_eq, req_image_eq. destruct (N.eqb_spec (lenN tok) (lenN image)) as [E|E]; [|reflexivity].
+  rewrite E, takeN_all. reflexivity.
+Qed.
+
+Lemma meth_scan_same tbl tok : meth_scan cfg_image_eq tbl tok = meth_scan req_image_eq tbl tok.
+Proof.
+  induction tbl as [|[id image] r IH]; cbn [meth_scan]; [reflexivity|]. rewrite cfg_req_image_eq, IH. reflexivity.
+Qed.
+
+Theorem meth_cfg_req_same tok : meth_tok_exact tok.
+Proof. unfold meth_tok_exact, meth_parse_cfg, meth_parse_req, meth_parse. rewrite meth_scan_same. reflexivity. Qed.
 
 (* ================================================================== *)
 (* 3c. dstdomain: C41                                                  *)
@@ -701,7 +723,7 @@ Definition line_ok (l : line) : Prop :=
   | LAcl _ (TSrc | TDst) ips _ => Forall iptok_ok ips
   | LAcl _ TDom _ txt => Forall DP.nonempty txt
   | LAcl _ TPort _ txt => Forall (fun t => clean t = true) txt
-  | LAcl _ TMeth _ txt => Forall meth_tok_exact txt
+  | LAcl _ TMeth _ _ => True
   | LAccess _ _ => True
   end.
 
@@ -717,7 +739,7 @@ Lemma toks_ok cfg name ty : typed cfg -> Forall line_ok cfg -> acl_type cfg name
   | TSrc | TDst => Forall iptok_ok (acl_ips cfg name)
   | TDom => Forall DP.nonempty (acl_txt cfg name)
   | TPort => forallb clean (acl_txt cfg name) = true
-  | TMeth => Forall meth_tok_exact (acl_txt cfg name)
+  | TMeth => True
   end.
 Proof.
   intros HT HW Hty. rewrite Forall_forall in HW.
@@ -725,7 +747,7 @@ Proof.
   { intros n ty' ips txt Hin E. apply list_eqb_spec in E. subst n. pose proof (HT _ _ _ _ Hin). congruence. }
   assert (Hfb : forall l, Forall (fun t => clean t = true) l -> forallb clean l = true).
   { intros l F. apply forallb_forall. rewrite Forall_forall in F. exact F. }
-  destruct ty; [| |  |apply Hfb|]; unfold acl_ips, acl_txt; apply Forall_flat_map'; intros l Hin;
+  destruct ty; [| |  |apply Hfb|exact I]; unfold acl_ips, acl_txt; apply Forall_flat_map'; intros l Hin;
     pose proof (HW l Hin) as Hok; destruct l as [n ty' ips txt|? ?]; cbn [line_ips line_txt]; try constructor;
     destruct (list_eqb n name) eqn:E; try constructor; pose proof (Hl _ _ _ _ Hin E) as ->; exact Hok.
 Qed.
@@ -790,8 +812,8 @@ Proof.
   - pose proof (meth_lookup _ vs (meth_parse_req (rq_method rq)) Hd) as L.
     assert (Hex : (exists tok, In tok (acl_txt cfg name) /\ meth_eq (meth_parse_cfg tok) (meth_parse_req (rq_method rq)) = true) <->
                   (exists tok, In tok (acl_txt cfg name) /\ meth_eq (meth_parse_req tok) (meth_parse_req (rq_method rq)) = true)).
-    { rewrite Forall_forall in Hok. split; intros (tok & Hin & Hm); exists tok; (split; [exact Hin|]);
-        [rewrite <- (Hok tok Hin)| rewrite (Hok tok Hin)]; exact Hm. }
+    { split; intros (tok & Hin & Hm); exists tok; (split; [exact Hin|]);
+        [rewrite <- (meth_cfg_req_same tok)| rewrite (meth_cfg_req_same tok)]; exact Hm. }
     destruct (meth_find vs (meth_parse_req (rq_method rq)) []) as [vs'|]; cbn [fst snd data_inv].
     + destruct L as [I X]. split; [exact I|]. split; [exact Hr|]. split; [intros _; apply Hex, X| reflexivity].
     + split; [exact Hd|]. split; [exact Hr|]. split; [discriminate|]. intros X. apply Hex in X. contradiction.
@@ -974,7 +996,8 @@ Proof.
 Qed.
 
 (* ================================================================== *)
-(* 5. the defect: a method value that is a proper prefix of a registered method name            *)
+(* 5. the former defect (repaired by /repo ae7c270): a method value that is a proper prefix of a   *)
+(*    registered method name was read as that method                                               *)
 Definition b_m : bytes := [109].                     (* "m" *)
 Definition b_GE : bytes := [71; 69].                 (* "GE" *)
 Definition b_GET : bytes := [71; 69; 84].            (* "GET" *)
@@ -985,40 +1008,13 @@ Definition wit_cfg : list line :=
 Definition wit_req (m : bytes) : request := mkReq 2130706435 m [49; 50; 55; 46; 48; 46; 48; 46; 49] (Some 2130706433) 80%Z.
 Definition wit_env : env := mkEnv [] [].
 
-Lemma wit_rules : ref_rules (full wit_cfg) = [(false, [(false, b_m)]); (true, [(false, s_all)])].
-Proof. reflexivity. Qed.
-
-Lemma wit_m_matches m : ref_acl (full wit_cfg) wit_env (wit_req m) b_m <->
-  meth_eq (meth_parse_req b_GE) (meth_parse_req m) = true.
-Proof.
-  unfold ref_acl. change (acl_type (full wit_cfg) b_m) with (Some TMeth).
-  change (acl_txt (full wit_cfg) b_m) with [b_GE]. cbn [rq_method wit_req]. split.
-  - intros (tok & [<-|[]] & H). exact H.
-  - intros H. exists b_GE. split; [left; reflexivity| exact H].
-Qed.
-
-Theorem method_prefix_witness :
-  Forall (fun t => clean t = true /\ t <> []) [b_GE] /\ ~ meth_tok_exact b_GE /\
-  meth_parse_cfg b_GE = meth_parse_req b_GET /\
-  (* the method GE, which the access list denies, is forwarded *)
-  access_run wit_cfg wit_env [wit_req b_GE] = Some [OForward] /\ ~ ref_allows wit_cfg wit_env (wit_req b_GE) /\
-  (* GET, which the access list allows, is denied *)
-  access_run wit_cfg wit_env [wit_req b_GET] = Some [ODeny403] /\ ref_allows wit_cfg wit_env (wit_req b_GET).
-Proof.
-  split; [constructor; [split; [reflexivity| discriminate]| constructor]|].
-  split; [unfold meth_tok_exact; vm_compute; discriminate|].
-  split; [vm_compute; reflexivity|].
-  split; [vm_compute; reflexivity|].
-  split.
-  - unfold ref_allows. rewrite wit_rules. cbn [fm_allows]. intros [[_ E]|[N _]]; [discriminate|].
-    apply N. constructor; [|constructor]. unfold term_holds. cbn [fst snd]. apply wit_m_matches. vm_compute. reflexivity.
-  - split; [vm_compute; reflexivity|].
-    unfold ref_allows. rewrite wit_rules. cbn [fm_allows]. right. split.
-    + intros F. inversion F as [|? ? F1 _]; subst. unfold term_holds in F1. cbn [fst snd] in F1.
-      apply wit_m_matches in F1. vm_compute in F1. discriminate.
-    + left. split; [|reflexivity]. constructor; [|constructor]. unfold term_holds. cbn [fst snd].
-      apply (all_always_matches wit_cfg).
-Qed.
+(* the former witness now behaves as the access list says: GE is denied, GET is forwarded; "GE", "g" and "p"
+   are extension methods, "get" is GET *)
+Theorem former_prefix_witness_repaired :
+  access_run wit_cfg wit_env [wit_req b_GE; wit_req b_GET] = Some [ODeny403; OForward] /\
+  meth_parse_cfg b_GE = mkMeth am_OTHER b_GE /\ meth_parse_cfg [103] = mkMeth am_OTHER [103] /\
+  meth_parse_cfg [112] = mkMeth am_OTHER [112] /\ meth_parse_cfg [103; 101; 116] = meth_parse_req b_GET.
+Proof. repeat split; vm_compute; reflexivity. Qed.
 
 (* a well-formed example: acl a src 127.0.0.0/30 127.0.0.9; acl d dstdomain .verif.test; acl p port 80 8000-8080;
    acl g method get POST; http_access deny !a g; http_access allow d p *)
